@@ -353,6 +353,41 @@ def many_fields_case():
     return out
 
 
+def repeated_names_case(seed):
+    """a header that repeats field names (AMReX writes such headers for derived quantities): the default listing
+    still shows what the header holds - every name once, nothing that is not in the header"""
+    rng = random.Random(seed)
+    out = dict(evals=1, keys=[core.khash('repeat', seed)], dist={'case=repeated header names': 1}, samples=[], violations=[], disagreements=[])
+    ndims = rng.choice([2, 3])
+    pf = gen.gen_deep_plotfile(rng, nlevels=rng.choice([1, 2]), ndims=ndims, nfields=1)
+    unknown = [x for x in NAMES if classify(x) is None] or ['tracer_a', 'tracer_b']
+    base = rng.sample(unknown, min(2, len(unknown))) + rng.sample([x for x in NAMES if classify(x) not in (None,)], 2)
+    fields = list(base)
+    rep = rng.choice(fields)
+    fields.insert(rng.randrange(1, len(fields) + 1), rep)
+    if rng.random() < 0.5:
+        fields.insert(rng.randrange(1, len(fields) + 1), rng.choice(fields))
+    if rng.random() < 0.5:
+        fields += ['Y(H2)', 'Y(O2)', 'Y(H2)']
+    pf.fields = fields
+    for lev in pf.levels:
+        lev.data = [gen.gen_payload(rng, tuple([2] * ndims) + (len(fields),), 'ints')]
+    path = os.path.join(core.scratch_dir(f'c18_rep_{seed}'), 'plt00030')
+    os.makedirs(os.path.dirname(path))
+    gen.write_plotfile(pf, path)
+    desc = dict(case='repeated header names', seed=seed, fields=fields)
+    res = core.outcome(lambda: run_entry('amr_kitchen.menu.cli', ['menu', path]))
+    if res[0] != 'ok':
+        out['violations'].append(dict(desc, kind='listing-raised', what='menu (default listing) raised: ' + res[1]))
+        return out
+    listing = [t for l in (block(res[1], 'Fields found in file') or []) for t in l.split()]
+    want_list = sorted({classify(k) or k for k in fields}, key=str.lower)
+    if sorted(listing) != sorted(want_list):
+        out['violations'].append(dict(desc, kind='wrong-listing',
+                                      what=f"menu lists {listing}; the header fields {fields} are, every one once, {want_list}"))
+    return out
+
+
 def lambda_many(_):
     return many_fields_case()
 
@@ -377,6 +412,8 @@ def run(tier, seed):
         rep.merge(r)
     for r in core.run_cases(lambda_many, [0]):
         rep.merge(r)
+    for r in core.run_cases(repeated_names_case, [seed * 100000 + 18900 + i for i in range(6 if tier == 'quick' else 60)]):
+        rep.merge(r)
     rep.obligation('correspondence: Menu.Menu (listing, species, extrema, table rows, minuterie) = parsed standard output of the entry points',
                    not any(v[0].get('kind') == 'model-vs-impl' for v in rep.violations))
     return rep.finish(
@@ -395,7 +432,7 @@ def run(tier, seed):
 
 def replay(doc):
     core.worker_init(core.REPO, quiet=False)
-    r = run_case(doc['seed'])
+    r = repeated_names_case(doc['seed']) if doc.get('case') == 'repeated header names' else run_case(doc['seed'])
     bad = r['violations'] + r['disagreements']
     for v in bad:
         print('REPLAY:', v.get('what'))
